@@ -24,7 +24,10 @@ var injectKinds = []string{"goto", "labelled-break", "labelled-continue", "selec
 	// a yield in the initialiser of an if / else-if whose chain ALSO has a yielding branch
 	"yield-if-init-yielding-branch", "yield-elseif-init-yielding-branch", "yield-if-init-yielding-else",
 	// a yield in the initialiser of a for / switch nested in a range statement that stays native
-	"yield-for-init-in-func-range", "yield-switch-init-in-ptr-range"}
+	"yield-for-init-in-func-range", "yield-switch-init-in-ptr-range",
+	// index-only range over a NIL pointer to an array: the operand is not evaluated (its length
+	// is a constant), the loop runs len times without dereferencing the pointer
+	"range-nil-ptr-array-index-only", "range-nil-ptr-array-no-variable"}
 
 // rawInject returns the source text of the construct (placeholders as in templates).
 func rawInject(kind string, tag func() int, control bool) string {
@@ -67,6 +70,10 @@ func rawInject(kind string, tag func() int, control bool) string {
 		return fmt.Sprintf("for v9 := range func(yield func(int) bool) {\n\t_ = yield(1) && yield(2)\n} {\n\tfor «Yield»(v9); v9 < 0; {\n\t}\n\tvrt.E(%d, v9)\n}\n«Yield»(69)", tag())
 	case "yield-switch-init-in-ptr-range":
 		return fmt.Sprintf("arr9 := [2]int{7, 8}\nfor _, v9 := range &arr9 {\n\tswitch «Yield»(v9); v9 {\n\tcase 7:\n\t\tvrt.E(%d)\n\t}\n}\n«Yield»(68)", tag())
+	case "range-nil-ptr-array-index-only":
+		return fmt.Sprintf("var p9 *[3]int\nfor i9 := range p9 {\n\t%s\n}", y("i9"))
+	case "range-nil-ptr-array-no-variable":
+		return fmt.Sprintf("var p9 *[2]int\nfor range p9 {\n\t%s\n}", y("66"))
 	case "yield-switch-init":
 		return fmt.Sprintf("switch «Yield»(98); {\ndefault:\n\tvrt.E(%d)\n}", tag())
 	case "go-yield":
